@@ -63,6 +63,8 @@ Section S3.
     {| nzero := S3 nzero nzero; none_ := S3 none_ nzero; nadd := s3_add; nmul := s3_mul; nsub := s3_sub;
        nopp := s3_opp; ndiv := s3_div; nofZ := fun z => S3 (nofZ z) nzero |}.
 
+  #[global] Instance ZT_S3 : ZeroTest (s3 F) := {| is0 := fun x => is0 (s3a x) && is0 (s3b x) |}.
+
   (* the number np.sqrt(3) *)
   Definition s3_root : s3 F := S3 nzero none_.
 
